@@ -20,6 +20,10 @@ type vWaiter struct {
 func (w *vWaiter) start(m *Muxer) {
 	go func() {
 		w.resp = verifGet(m, w.uri)
+		if w.resp.code == 0 {
+			// net/http: a handler that returns without calling WriteHeader has answered 200 OK
+			w.resp.code = 200
+		}
 		w.done.Store(true)
 	}()
 }
